@@ -45,6 +45,22 @@ def error_exit(message):
     sys.exit(f"{sys.argv[0]}: {message}")
 
 
+def str_to_bool(value):
+    """
+    Convert the string given for a boolean command line option (e.g. "True",
+    "false", "1", "no") into a bool. Using ``type=bool`` does not work, as any
+    non-empty string, including "False", is then treated as True.
+    """
+    lowered = value.strip().lower()
+    if lowered in ("true", "t", "yes", "y", "1"):
+        return True
+    if lowered in ("false", "f", "no", "n", "0"):
+        return False
+    raise argparse.ArgumentTypeError(
+        f"expected a boolean value such as True or False, not '{value}'"
+    )
+
+
 def setup_logging(args):
     log_level = "WARN"
     if args.verbosity > 0:
@@ -236,7 +252,7 @@ def tsdate_cli_parser():
     parser.add_argument(
         "--erase-flanks",
         "--trim_telomeres",
-        type=bool,
+        type=str_to_bool,
         help=(
             "Should all material before the first site and after the "
             "last site be trimmed, regardless of the length of these "
@@ -246,7 +262,7 @@ def tsdate_cli_parser():
     )
     parser.add_argument(
         "--split-disjoint",
-        type=bool,
+        type=str_to_bool,
         help=(
             "Should disjoint nodes, that disappear from the trees then "
             "reappear further along the genome, be split into separate nodes. "
